@@ -35,6 +35,7 @@ def run(ctx):
     _no_data_branch_unreachable(ctx, py)
     _correct_increments_identity(ctx, py)
     _frame_models(ctx, py)
+    _trace_runs(ctx, py)
     _standin_a_c(ctx, py)
     _standin_b(ctx, py)
 
@@ -219,6 +220,32 @@ def _frame_models(ctx, py):
 
 
 # -----------------------------------------------------------------------------------------------
+TRACE_SCHEDULES = [
+    # (increment stamps, per-sensor stamps (none in [start, end)), time_step, with_altitude)
+    ([0.1, 0.2, 0.3, 0.4, 0.5, 0.6], [[0.6, 0.9], [-1.0]], 0.25, True),
+    ([0.1, 0.2, 0.3, 0.4, 0.5, 0.6], [[0.6], []], 0.1, True),
+    ([0.1, 0.25, 0.3, 0.55, 0.6, 0.8, 0.85], [[-0.5, 0.85, 2.0], [0.85]], 0.3, True),
+    ([0.1, 0.2, 0.3, 0.4, 0.5, 0.6, 0.7], [[], [1.0]], 100.0, False),
+]
+
+
+def _trace_runs(ctx, py):
+    """the REAL, uncut run_feedback_filter with estimated sensor states on symbolic payloads and stamps outside the
+    span: the returned trajectory is cell-for-cell the SAME operation DAG as one Integrator.integrate call"""
+    from props import sched
+    from props.C02 import same_rows
+    cfgs = [dict(bias_sd=1.0, scale_misal_sd=np.ones((3, 3))), dict(bias_sd=1.0, bias_walk=0.1)]
+    scheds = TRACE_SCHEDULES if ctx.tier != "quick" else TRACE_SCHEDULES[:2]
+    for k, (times, stamps, step, wa) in enumerate(scheds):
+        t0 = time.time()
+        res, pva, inc, ref = sched.feedback_filter_trace(py, times, stamps, step, wa, gyro_cfg=cfgs[k % 2], accel_cfg=cfgs[(k + 1) % 2])
+        ok = list(res.trajectory.index) == list(ref.index) and same_rows(res.trajectory, ref)
+        ctx.ob("C12.a.trace_run[%d]" % k, "T", ok, "trace-domain(real uncut filter, symbolic payload, DAG identity)", time.time() - t0,
+               "stamps %s, measurement stamps %s (none in the span), time_step %s, with_altitude=%s: trajectory == Integrator.integrate(increments) as operation DAGs" % (times, stamps, step, wa),
+               cex=None if ok else dict(index=list(map(float, res.trajectory.index)), expected=list(map(float, ref.index))),
+               native=None if ok else _native_transparent(py))
+
+
 def _scenario(py, seed, n=80, scale=1.0):
     rng = np.random.RandomState(seed)
     dt = 0.1
